@@ -28,7 +28,8 @@ EXHAUSTIVE_NOTE = ("quick: all byte strings over {a,b} up to length 5 x all chun
                    "ordered pairs from a table of 26 calls; thorough: length 7 (and all triples for length <= 3); "
                    "text: all 2- and 3-chunk splits of the encodings of a fixed set of code-point mixes")
 RULE = ("one case = one wrapped stream (data, chunking, kind) plus a call sequence, followed by a drain to end of "
-        "stream; non-trivial = some call needed two or more wrapped receives, or a chunk boundary fell strictly "
+        "stream; Hypothesis histories also contain calls interrupted at their (k+1)-th wrapped receive by cancellation or by "
+        "a one-off error of the wrapped stream; non-trivial = some call needed two or more wrapped receives, or a chunk boundary fell strictly "
         "inside a delimiter occurrence / inside a multi-byte character; distinct = distinct canonical JSON")
 ASSUMPTIONS = [
     "wrapped streams never yield empty chunks (ByteReceiveStream contract) and honour max_bytes",
